@@ -33,6 +33,7 @@ RULES = [  # (package regex, function regex, stage)
  (r'command', r'parseDstSubnet|parseScanRange|parsePortRange|parsePortsFile|parseExcludeFile|parseRawOptions|newStdinOpener|newIPPortGenerator', 'target'),
  (r'command', r'getScanRange|getInterface|getLocalSubnetInterface', 'iface'),
  (r'command', r'getUDPOptions|getICMPOptions|parseIPFlags|parseTCPFlags|parsePacketPayload|^init$', 'optplumb'),
+ (r'pkg/scan/(arp|tcp|udp|icmp)', r'^With', 'optplumb'),
  (r'pkg/scan$', r'rangeIterator|newRangeIterator', 'iter'),
  (r'pkg/scan$', r'ipGenerator|portGenerator|ipPortGenerator|ipRequestGenerator|fileIPPortGenerator|fileIPGenerator|filterIPRequestGenerator|liveRequestGenerator|validatePorts|isValidPort|NewIPPortGenerator|NewIPRequestGenerator|NewFileIP|NewLiveRequestGenerator|NewFilterIPRequestGenerator', 'gen'),
  (r'pkg/scan/arp', r'cacheReqGenerator|Cache\)|NewCache|FillCache', 'cache'),
